@@ -135,6 +135,23 @@ int main(void) {
 		CHECK(head->tail == t && last_of(head) == t, "appended token is last and recorded as tail");
 		COVER(n == K);
 	}
+#elif OP == 8    /* token_split_on_char(t, source, c): the link-definition extractor splits `url class="x"` at blanks */
+	{
+		ASSUME(first->child == 0 && first->mate == 0);          /* a leaf text token (writer.c definition_extract) */
+		size_t o_start = first->start, o_end = first->start + first->len; token *after = first->next;
+		token_split_on_char(first, IN.src, IN.c);
+		if (head->tail != last_of(head)) fix_token_chain_tail(head);
+		int pieces = 0; token *t = first;
+		for (int i = 0; i < 6; i++) {
+			if (t == after || !t) break;
+			pieces++;
+			CHECK(t->start >= o_start && t->start + t->len <= o_end, "a piece lies inside the token that was split");
+			if (t->next != after) CHECK(t->start + t->len + 1 == t->next->start && IN.src[t->start + t->len] == IN.c, "consecutive pieces are separated by exactly the split character");
+			t = t->next;
+		}
+		CHECK(t == after, "the pieces are followed by the old successor");
+		COVER(pieces == 3); COVER(pieces == 2 && after != 0); COVER(pieces == 1);
+	}
 #endif
 	/* INV is re-established; walking the result touches only live objects */
 	if (res) CHECK(inv_chain(res, 0, SRCLEN, 0), "INV after the operation: doubly linked, source order, spans inside, mates symmetric");
